@@ -8,6 +8,8 @@ From Verif Require Import Blocking.Model Blocking.Lemmas Blocking.Prims Blocking
 Import RecordSetNotations.
 Local Open Scope N_scope.
 
+Ltac inl := repeat first [apply elem_of_list_here | apply elem_of_list_further].
+
 (* ---------- NodeServices ---------- *)
 Lemma svcs_of_node_lookup n (s : st) k :
   svcs_of_node n s !! k = if bool_decide (k.1 = n) then services s !! k else None.
@@ -33,18 +35,18 @@ Proof.
     case_bool_decide as Ek; [|contradiction Hk; reflexivity].
     apply set_key_iget; [exact HB|]. rewrite services_papply in Hk.
     destruct p; try (contradiction Hk; reflexivity).
-    + destruct (decide (k = (n0, sid))) as [->|Hne]; [cbn in Ek; subst; cbn; set_solver|].
+    + destruct (decide (k = (n0, sid))) as [->|Hne]; [cbn in Ek; subst; cbn [set_keys]; inl|].
       rewrite lookup_insert_ne in Hk by congruence. contradiction Hk; reflexivity.
     + destruct (decide (k = (n0, sid))) as [->|Hne].
-      * cbn in Ek. subst. cbn. destruct (services s !! (n, sid)) eqn:E; [set_solver|].
+      * cbn in Ek. subst. cbn [set_keys]. destruct (services s !! (n, sid)) eqn:E; [apply elem_of_app; left; inl|].
         rewrite lookup_delete in Hk. contradiction Hk; reflexivity.
       * rewrite lookup_delete_ne in Hk by congruence. contradiction Hk; reflexivity.
   - rewrite nodes_papply in Hn |- *.
     destruct p; try (contradiction Hn; reflexivity).
     + destruct (decide (n = n0)) as [->|Hne]; [|rewrite lookup_insert_ne in Hn by congruence; contradiction Hn; reflexivity].
-      rewrite lookup_insert. apply set_key_iget; [exact HB|]. cbn. set_solver.
+      rewrite lookup_insert. apply set_key_iget; [exact HB|]. cbn [set_keys]. inl.
     + destruct (decide (n = n0)) as [->|Hne]; [|rewrite lookup_delete_ne in Hn by congruence; contradiction Hn; reflexivity].
-      rewrite lookup_delete. apply set_key_iget; [exact HB|]. cbn. set_solver.
+      rewrite lookup_delete. apply set_key_iget; [exact HB|]. cbn [set_keys]. inl.
 Qed.
 
 Lemma node_services_mono i p s n :
@@ -67,7 +69,7 @@ Proof.
     + destruct (services s !! (n0, sid)); [|inversion Hd]. destruct (bool_decide _); [|inversion Hd].
       apply elem_of_list_singleton in Hd. symmetry in Hd. revert Hd. apply k_svc_node.
   - destruct (nodes (papply i p s) !! n) as [x'|] eqn:En'; [destruct Hn as [Hn _]; destruct Hn; [eexists; reflexivity|discriminate]|].
-    apply fixed_mono; [exact HB|]. unfold fixed_keys. set_solver.
+    apply fixed_mono; [exact HB|]. unfold fixed_keys. inl.
 Qed.
 
 (* ---------- the service-name family ---------- *)
@@ -98,7 +100,7 @@ Lemma join_csn_lookup (s : st) (m : gmap (string * string) svc) k :
   join_csn s m !! k = (fun sv => (nodes s !! k.1, sv, checks_for s k.1 k.2)) <$> m !! k.
 Proof. unfold join_csn. rewrite map_lookup_imap. destruct (m !! k); reflexivity. Qed.
 
-Lemma tag_filter_lookup tag (m : gmap (string * string) svc) k :
+Lemma tag_filter_lookup (tag : string) (m : gmap (string * string) svc) k :
   filter (fun kv : string * string * svc => has_tag tag kv.2 = true) m !! k =
   match m !! k with Some sv => if has_tag tag sv then Some sv else None | None => None end.
 Proof.
@@ -127,7 +129,7 @@ Proof.
   - rewrite !join_node_lookup, !tag_filter_lookup.
     destruct (svcs_named name s !! k) as [a|], (svcs_named name s' !! k) as [b|]; cbn in *; try congruence.
     injection Hk as Hn <- Hc. destruct (has_tag tag a); cbn; congruence.
-  - exact Hk.
+  - rewrite !join_csn_lookup. exact Hk.
   - rewrite !join_csn_lookup, !tag_filter_lookup.
     destruct (svcs_named name s !! k) as [a|], (svcs_named name s' !! k) as [b|]; cbn in *; try congruence.
     injection Hk as Hn <- Hc. destruct (has_tag tag a); cbn; congruence.
@@ -162,8 +164,7 @@ Proof.
   intros Hq. destruct Hq; cbn [idx]; try reflexivity.
   unfold csn_index, sidx, nonempty.
   case_bool_decide as E; cbn [negb]; [reflexivity|].
-  rewrite names_of_named by exact E. cbn [foldr].
-  unfold nonempty. rewrite bool_decide_eq_false_2 by exact E. cbn [negb]. lia.
+  rewrite names_of_named by exact E. cbn [foldr]. lia.
 Qed.
 
 Lemma catalog_max_le i wc s : IdxBnd i s -> catalog_max wc s <= i.
@@ -175,7 +176,7 @@ Qed.
 Lemma catalog_max_mono i p wc s : IdxBnd i s -> catalog_max wc s <= catalog_max wc (papply i p s).
 Proof.
   intros HB. unfold catalog_max, imax. destruct wc; cbn [foldr];
-    repeat apply N_max_mono; try lia; apply fixed_mono; try exact HB; unfold fixed_keys; set_solver.
+    repeat apply N_max_mono; try lia; apply fixed_mono; try exact HB; unfold fixed_keys; inl.
 Qed.
 
 Lemma sidx_le i name wc s : IdxBnd i s -> sidx name wc s <= i.
@@ -238,18 +239,18 @@ Proof.
   destruct p; cbn [pvalid psafe] in Hv, Hs.
   all: try (exfalso; apply Hk; rewrite !svcs_named_lookup, ES, EN; unfold checks_for; rewrite EC; reflexivity).
   - (* PNodePut *)
-    rewrite !svcs_named_lookup, ES in Hk |- *.
+    rewrite !svcs_named_lookup, ES in Hk.
     destruct (services s !! (n, sid)) as [sv|] eqn:Esv; [|contradiction Hk; reflexivity].
     case_bool_decide as En; [|contradiction Hk; reflexivity].
     apply (Hleft sv); [rewrite svcs_named_lookup, ES, Esv, bool_decide_eq_true_2 by exact En; reflexivity|].
     assert (n = n0) as ->.
-    { destruct (decide (n = n0)) as [|Hn]; [assumption|]. exfalso. apply Hk. cbn.
+    { destruct (decide (n = n0)) as [|Hn]; [assumption|]. exfalso. apply Hk. cbn [fmap option_fmap option_map].
       unfold checks_for. rewrite EC, EN, lookup_insert_ne by congruence. reflexivity. }
-    cbn. subst name. pose proof (name_in_node_names _ _ _ _ Esv). set_solver.
+    cbn [set_keys]. subst name. do 2 apply elem_of_list_further. apply elem_of_list_fmap_1. exact (name_in_node_names _ _ _ _ Esv).
   - (* PNodeDel: no service of the node is left *)
     exfalso. apply Hk. rewrite !svcs_named_lookup, ES.
     destruct (services s !! (n, sid)) as [sv|] eqn:Esv; [|reflexivity].
-    case_bool_decide; [|reflexivity]. cbn. unfold checks_for. rewrite EC, EN.
+    case_bool_decide; [|reflexivity]. cbn [fmap option_fmap option_map]. unfold checks_for. rewrite EC, EN.
     destruct (decide (n = n0)) as [->|Hn]; [|rewrite lookup_delete_ne by congruence; reflexivity].
     exfalso. assert (svcs_of_node n0 s !! (n0, sid) = Some sv) as Hin.
     { rewrite svcs_of_node_lookup. cbn. rewrite bool_decide_eq_true_2 by reflexivity. exact Esv. }
@@ -266,7 +267,7 @@ Proof.
       destruct (services s !! (n0, sid0)) as [o|] eqn:Eo; [|reflexivity].
       rewrite (Hs1 o eq_refl). rewrite (bool_decide_eq_false_2 _ Hx). reflexivity. }
     apply (Hleft x); [rewrite svcs_named_lookup, ES, lookup_insert, bool_decide_eq_true_2 by exact Hnm; reflexivity|].
-    cbn. rewrite Hnm. set_solver.
+    cbn [set_keys]. rewrite Hnm. inl.
   - (* PSvcDel *)
     destruct (decide ((n, sid) = (n0, sid0))) as [Heq|Hneq].
     2: { exfalso. apply Hk. rewrite !svcs_named_lookup, ES, lookup_delete_ne by congruence.
@@ -282,14 +283,20 @@ Proof.
     destruct (decide (svcs_named (sv_name x) (s <| dt; services ::= delete (n0, sid0) |>) = ∅)) as [He|Hne'].
     + right. split; [exact He|]. rewrite !index_papply by exact HB. unfold papply_idx. cbn [set_keys del_keys].
       rewrite Ex. rewrite (bool_decide_eq_true_2 _ He). split.
-      * rewrite bool_decide_eq_true_2; [reflexivity|set_solver].
+      * rewrite bool_decide_eq_true_2; [reflexivity|apply elem_of_app; right; inl].
       * rewrite bool_decide_eq_false_2.
-        2: { pose proof (k_svc_fixed (sv_name x)) as Hf. set_unfold.
-             intros [H|[H|[H|[H|[H|[]]]]]]; try (revert H; apply Hf; set_solver). revert H. apply k_svc_node. }
-        rewrite bool_decide_eq_true_2 by set_solver. reflexivity.
-    + left. split; [|exact Hne']. apply Hidx. cbn. rewrite Ex. rewrite (bool_decide_eq_false_2 _ Hne'). set_solver.
+        2: { pose proof (k_svc_fixed (sv_name x)) as Hf. intros Hin.
+             apply elem_of_app in Hin as [Hin|Hin].
+             - apply elem_of_cons in Hin as [H|Hin]; [revert H; apply Hf; unfold fixed_keys; inl|].
+               apply elem_of_cons in Hin as [H|Hin]; [revert H; apply Hf; unfold fixed_keys; inl|].
+               apply elem_of_cons in Hin as [H|Hin]; [revert H; apply Hf; unfold fixed_keys; inl|].
+               apply elem_of_list_singleton in Hin. revert Hin. apply k_svc_node.
+             - apply elem_of_list_singleton in Hin. revert Hin. apply Hf. inl. }
+        rewrite bool_decide_eq_true_2 by inl. reflexivity.
+    + left. split; [|exact Hne']. apply Hidx. cbn [set_keys]. rewrite Ex. rewrite (bool_decide_eq_false_2 _ Hne').
+      apply elem_of_app; right; inl.
   - (* PChkPut *)
-    rewrite !svcs_named_lookup, ES in Hk |- *.
+    rewrite !svcs_named_lookup, ES in Hk.
     destruct (services s !! (n, sid)) as [sv|] eqn:Esv; [|contradiction Hk; reflexivity].
     case_bool_decide as En; [|contradiction Hk; reflexivity].
     apply (Hleft sv); [rewrite svcs_named_lookup, ES, Esv, bool_decide_eq_true_2 by exact En; reflexivity|].
@@ -304,12 +311,13 @@ Proof.
       rewrite (Hs o eq_refl) in Hck. rewrite (bool_decide_eq_false_2 _ Hb) in Hck. contradiction Hck; reflexivity. }
     destruct Hx as [-> Hx]. cbn [set_keys].
     destruct (decide (c_svc x = "")) as [He|Hne'].
-    + rewrite (bool_decide_eq_true_2 _ He). subst name. pose proof (name_in_node_names _ _ _ _ Esv). set_solver.
+    + rewrite (bool_decide_eq_true_2 _ He). subst name. apply elem_of_list_further, elem_of_list_fmap_1.
+      exact (name_in_node_names _ _ _ _ Esv).
     + rewrite (bool_decide_eq_false_2 _ Hne'). destruct Hx as [|Hx]; [contradiction|].
       destruct (Hv Hne') as (sv' & Esv' & Hnm). rewrite Hx, Esv in Esv'. injection Esv' as <-.
-      rewrite <- Hnm, En. set_solver.
+      rewrite <- Hnm, En. inl.
   - (* PChkDel *)
-    rewrite !svcs_named_lookup, ES in Hk |- *.
+    rewrite !svcs_named_lookup, ES in Hk.
     destruct (services s !! (n, sid)) as [sv|] eqn:Esv; [|contradiction Hk; reflexivity].
     case_bool_decide as En; [|contradiction Hk; reflexivity].
     apply (Hleft sv); [rewrite svcs_named_lookup, ES, Esv, bool_decide_eq_true_2 by exact En; reflexivity|].
@@ -322,8 +330,68 @@ Proof.
     case_bool_decide as Hb; [|contradiction Hck; reflexivity]. destruct Hb as [-> Hb].
     cbn [set_keys]. rewrite Eo.
     destruct (decide (c_svc o = "")) as [He|Hne'].
-    + rewrite (bool_decide_eq_true_2 _ He). subst name. pose proof (name_in_node_names _ _ _ _ Esv). set_solver.
+    + rewrite (bool_decide_eq_true_2 _ He). subst name. do 2 apply elem_of_list_further. apply elem_of_list_fmap_1.
+      exact (name_in_node_names _ _ _ _ Esv).
     + rewrite (bool_decide_eq_false_2 _ Hne'). destruct Hb as [|Hb]; [contradiction|].
       pose proof (HC n cid o sv Eo Hne') as Hco. rewrite Hb in Hco. specialize (Hco Esv).
-      rewrite <- Hco, En. set_solver.
+      rewrite <- Hco, En. inl.
+Qed.
+
+Lemma J_same_named name s s' : J name s = J name s' -> svcs_named name s = svcs_named name s'.
+Proof.
+  intros HJ. apply map_eq. intros k.
+  pose proof (f_equal (fun m => m !! k) HJ) as Hk. cbn beta in Hk. rewrite !J_lookup in Hk.
+  destruct (svcs_named name s !! k), (svcs_named name s' !! k); cbn in Hk; congruence.
+Qed.
+
+Lemma sidx_unchanged i p s name wc :
+  IdxBnd i s -> J name s = J name (papply i p s) -> sidx name wc s <= sidx name wc (papply i p s).
+Proof.
+  intros HB HJ. pose proof (J_same_named _ _ _ HJ) as Hsame.
+  pose proof (sidx_le i name wc s HB) as Hle.
+  assert (Hdel : k_svc name ∈ del_keys p s -> svcs_named name s <> ∅ /\ svcs_named name (papply i p s) = ∅).
+  { intros Hin. destruct p; cbn in Hin; try (inversion Hin; fail).
+    - apply elem_of_list_singleton in Hin. exfalso. revert Hin. apply k_svc_node.
+    - destruct (services s !! (n, sid)) as [x|] eqn:Ex; [|inversion Hin].
+      case_bool_decide as He; [|inversion Hin]. apply elem_of_list_singleton, k_svc_inj in Hin. subst name. split.
+      + eapply (svcs_named_nonempty _ _ (n, sid) x). rewrite svcs_named_lookup, Ex, bool_decide_eq_true_2 by reflexivity. reflexivity.
+      + rewrite <- He. apply svcs_named_dt. rewrite services_papply. reflexivity. }
+  unfold sidx in *. rewrite <- Hsame. unfold svc_index in *.
+  assert (Hrow : forall k, k ∉ del_keys p s ->
+            index (papply i p s) !! k = Some i \/ index (papply i p s) !! k = index s !! k).
+  { intros k Hk. rewrite index_papply by exact HB. unfold papply_idx.
+    case_bool_decide; [left; reflexivity|]. rewrite bool_decide_eq_false_2 by exact Hk. right; reflexivity. }
+  assert (Hsvcrow : svcs_named name s <> ∅ \/ svcs_named name s = ∅ -> k_svc name ∉ del_keys p s).
+  { intros _ Hin. destruct (Hdel Hin) as [H1 H2]. rewrite <- Hsame in H2. contradiction. }
+  assert (Hnd : k_svc name ∉ del_keys p s) by (apply Hsvcrow; destruct (decide (svcs_named name s = ∅)); tauto).
+  assert (Hsext : k_sext ∉ del_keys p s) by (apply del_keys_not_fixed; unfold fixed_keys; inl).
+  pose proof (catalog_max_mono i p wc s HB) as Hcm.
+  pose proof (catalog_max_le i wc s HB) as Hcl.
+  assert (Hsv : (match index s !! k_svc name with Some v => (v, Some (k_svc name)) | None => (catalog_max wc s, None) end).1
+                <= (match index (papply i p s) !! k_svc name with Some v => (v, Some (k_svc name))
+                    | None => (catalog_max wc (papply i p s), None) end).1).
+  { destruct (Hrow _ Hnd) as [-> | ->].
+    - cbn. destruct (index s !! k_svc name) as [v|] eqn:E; cbn; [exact (HB _ _ E)|exact Hcl].
+    - destruct (index s !! k_svc name); cbn; [lia|exact Hcm]. }
+  destruct (nonempty (svcs_named name s)); [exact Hsv|].
+  destruct (Hrow _ Hsext) as [-> | ->]; [cbn; exact Hle|].
+  destruct (index s !! k_sext); [cbn; lia|exact Hsv].
+Qed.
+
+Lemma svc_changed i p s name wc q :
+  IdxBnd i s -> Coherent s -> pvalid i p s -> psafe p s -> svcq name wc q ->
+  res q s <> res q (papply i p s) -> idx q (papply i p s) = i.
+Proof.
+  intros HB HC Hv Hs Hq Hc. rewrite (svcq_idx _ _ _ _ Hq). apply Post_sidx.
+  apply J_changed; try assumption. intros HJ. apply Hc. eapply svcq_res; eassumption.
+Qed.
+
+Lemma svc_mono i p s name wc q :
+  IdxBnd i s -> Coherent s -> pvalid i p s -> psafe p s -> svcq name wc q ->
+  idx q s <= idx q (papply i p s).
+Proof.
+  intros HB HC Hv Hs Hq. rewrite !(svcq_idx _ _ _ _ Hq).
+  destruct (decide (J name s = J name (papply i p s))) as [HJ|HJ].
+  - apply sidx_unchanged; assumption.
+  - rewrite (Post_sidx _ _ _ _ (J_changed i p s name HB HC Hv Hs HJ)). apply sidx_le, HB.
 Qed.
